@@ -47,12 +47,12 @@ type Serv struct {
 	LogPath string
 	Pid     int
 
-	cmd    *exec.Cmd
-	logf   *os.File
-	exited chan struct{}
-	exitMu sync.Mutex
-	exit   error
-	stopMu sync.Mutex
+	cmd     *exec.Cmd
+	logf    *os.File
+	exited  chan struct{}
+	exitMu  sync.Mutex
+	exit    error
+	stopMu  sync.Mutex
 	stopped bool
 }
 
